@@ -1093,6 +1093,26 @@ def run(ctx: Context):
                 r.require(_canon(svn.norm(n, n.ast.value), T) == "D", sv, sv.loc(n.ast),
                           "size_of_version returns %s, the data length is verinfo[%d]" % (svn.norm(n, n.ast.value), iD))
 
+    # ---- 7. the patched version's own length -------------------------------
+    with ctx.rule("C09.7", "R6", "Publish.update: the length of the file being patched in place is the data length of "
+                  "the version whose shares are patched (D slot of the `version` argument, which also gives "
+                  "old_segcount), extended only by the new data", expected=2) as r:
+        _need("the verinfo positions of C09.1", pos)
+        pu = idx.func(PUB + ".update")
+        pun = FlowNorm(pu, depth=8)
+        ps = first_positional_params(pu)          # data, offset, blockhashes, version
+        if len(ps) < 4:
+            raise AnchorVanished("Publish.update(data, offset, blockhashes, version) signature changed")
+        T7 = [("%s[%d]" % (ps[3], pos["D"]), "D"), ("%s.get_size()" % ps[0], "NEW")]
+        allowed = {"D", "NEW", norm_src("max(D, NEW)")}
+        for (n, form, fin) in _attr_forms(pu, pun, "self.datalength", T7):
+            r.site(pu, n.ast, "patched length")
+            r.require(form in allowed, pu, pu.loc(n.ast),
+                      "in-place update lays the file out for a length of %s; the shares being patched belong to the "
+                      "version passed in, whose length is %s[%d] (a cached node size is stale after an update that "
+                      "extended the file: the next update truncates the layout and every share fails validation)" % (
+                          form, ps[3], pos["D"]))
+
 
 def _poly_subst(poly, atom, repl):
     out = Poly()
